@@ -366,6 +366,9 @@ func TestVerifC15(t *testing.T) {
 				kind = strings.SplitN(strings.SplitN(kind, ",", 2)[0], ":", 2)[0]
 				viol("unlocked-access", "pipeline:unlocked-access:"+kind+":"+strings.SplitN(k, " -> ", 2)[1], mon.violations[k]+fmt.Sprintf(" (schedule %s)", cj))
 			}
+			for _, rc := range x.replyChanged {
+				viol("reply-changed-in-flight", "pipeline:reply-changed-in-flight:"+strings.SplitN(rc, ":", 2)[0], "a reply was rewritten after its handler had returned and released the lock: "+rc+fmt.Sprintf(" (schedule %s)", cj))
+			}
 			if s.Deadlock {
 				viol("deadlock", "pipeline:deadlock", fmt.Sprintf("threads %v never finish under schedule %s", s.Blocked, cj))
 				return
